@@ -169,14 +169,18 @@ def run_shard(params, rec):
         prog = jitlib.make_prog(spec, rng, pool, rng.randrange(4, 12), with_loop=True,
                                 fault_bias=rng.choice([0.0, 0.0, 0.1, 0.3]))
         rec.ev()
-        ref = jitlib.run(spec, backend, prog, options=dict(jit_maxline=1, max_exec_per_call=1),
-                         max_steps=600, trace=True)
+        # reference: single-step configuration; its address sequence is read from the same
+        # instruction log as the other configurations (exec_cb sees blocks, and a delay-slot
+        # instruction never starts a block)
+        refj = jitlib.new_jitter(spec, backend, prog, dict(jit_maxline=1, max_exec_per_call=1))
+        refj.set_trace_log(True, False, False)
+        path = os.path.join(tmpdir, "ref.log")
+        with FdCapture(path):
+            ref = jitlib.run(spec, backend, prog, max_steps=600, trace=True, jitter=refj)
         if ref.budget:
             rec.count("discarded_budget")
             continue
-        ref_trace = collapse(ref.trace)
-        if ref_trace and ref_trace[-1] == prog.end and ref.stop == "end":
-            ref_trace.pop()      # exec_cb also fires on the end marker, where nothing executes
+        ref_trace = collapse(parse_log(path))
         rec.count("programs:%s:%s" % (spec.mname, backend))
         if prog.loop is not None and ref.steps > len(prog.instrs) + 1:
             rec.count("with_taken_loop")
